@@ -8,7 +8,6 @@ NA = {
  'C09': 'depends on converged iterative solvers over the whole pipeline',
  'C10': 'iterative Newton/CG/PGS convergence; only the shared cost/force law is encodable (C11, C12)',
  'C15': 'GJK/EPA: iterative geometric search with data-dependent termination',
- 'C25': 'finite differencing of the full pipeline',
  'C32': 'src/xml needs tinyxml2 (absent, no network) and does not lower; writer/reader are STL/exception-heavy C++',
  'C33': 'the model compiler (src/user) is string/STL/exception-heavy C++ beyond the hand-written IR executor',
  'C35': 'the inference of mass, centre of mass and inertia from geoms and meshes lives in the C++ model compiler (src/user/user_objects.cc, user_mesh.cc: STL containers, exceptions, virtual dispatch - does not lower to IR the executor can run) and in the iterative eigen-solver mju_eig3 (data-dependent sweeps in floating point); the only mass-property code within reach is the sysid parameterisation, claimed under C47',
